@@ -283,7 +283,7 @@ func (eng *Engine) inferRenaming(fn *ssa.Function, modes Modes, spec map[string]
 	// 1. anchors that are gone: a vanished identifier in the anchor, replaced by an unmentioned local, gives a line of the function
 	for _, cut := range ct.Cuts {
 		a := anchorText(cut.Anchor)
-		if lines[a] || strings.HasPrefix(cut.Anchor, "call:") {
+		if lines[a] || strings.HasPrefix(cut.Anchor, "call:") || cut.Anchor == "go:" {
 			continue
 		}
 		for id := range identsOf(a) {
